@@ -41,8 +41,8 @@ impl DFA {
         self.inputs.lookup(id)
     }
 
-    pub fn verif_num_inputs(&self) -> usize {
-        self.inputs.store.len()
+    pub fn verif_inputs(&self) -> impl Iterator<Item = &Inp> {
+        self.inputs.store.iter()
     }
 
     pub fn verif_subdfa(&self, id: DFAId) -> &DFA {
